@@ -15,10 +15,27 @@ def _watchdog(fn, secs=5):
         signal.signal(signal.SIGALRM, old)
 
 
-def replay_loads(data, enc, hexbm):
+def caller_config(iso8583, cfgmode):
+    """caller-supplied configurations with a history (shared by the symbolic harness and the replay)"""
+    if cfgmode is None:
+        return None
+    if cfgmode == 'pan':
+        return {'2': {'field_type': 'LLVAR', 'field_length': 0, 'field_processor': 'PAN'}, '3': {'field_type': 'FIXED', 'field_length': 6}}
+    import copy
+    from . import ref
+    from .c08_replay import PRIOR_BEFORE, prior_edit
+    cfg = copy.deepcopy(PRIOR_BEFORE)
+    iso8583.loads(b'1240' + ref.ref_bitmap([2, 3]) + b'0512345' + b'04abcd', iso_config=cfg)
+    iso8583.loads(b'1240' + ref.ref_bitmap([3, 14, 38]) + b'02xy' + b'2512' + b'ABCDEF', iso_config=cfg)
+    prior_edit(cfg)
+    return cfg
+
+
+def replay_loads(data, enc, hexbm, cfgmode=None):
     from cardutil import iso8583
+    cfg = caller_config(iso8583, cfgmode)
     try:
-        _watchdog(lambda: iso8583.loads(data, encoding=enc, hex_bitmap=hexbm))
+        _watchdog(lambda: iso8583.loads(data, encoding=enc, hex_bitmap=hexbm, iso_config=cfg))
     except iso8583.Iso8583DataError:
         return False, 'Iso8583DataError', None
     except TimeoutError:
